@@ -45,8 +45,13 @@ pub fn run(args: &Args) -> i32 {
     // every so often a long history with SN windows wider than 256
     let gp_big = GenParams { max_samples_per_writer: 600, max_writers: 2, wide_windows: true };
     let case = if i % big_every == big_every - 1 { rdr::gen_case(&mut rng, &gp_big) } else { rdr::gen_case(&mut rng, &gp) };
-    let tag = json!({"seed": seed, "stream": stream, "index": i});
+    let pad = crate::wire::choose_pad_garbage(seed, stream, i);
+    if pad != 0 {
+      acc.count("cases_with_random_bits_in_number_set_padding", 1);
+    }
+    let tag = json!({"seed": seed, "stream": stream, "index": i, "number_set_padding_bits": pad});
     let out = rdr::run_case(&case, prop, acc, &tag);
+    crate::wire::set_pad_garbage(0);
     acc.evaluations += 1;
     acc.count("samples_handed_over", out.handed);
     acc.count("acknacks_observed", out.acknacks);
